@@ -1558,23 +1558,29 @@ func (w *c18World) probeAcquire(res int, holder *c18Node, stepN int) bool {
 	return true
 }
 
-// ownDeleteAfterReacquire: in the recorded steps, the last PUT on res names the holder and it is followed by a
-// DELETE executed by the holder's own release (delete / txn-delete step of the same broker id).
+// ownDeleteAfterReacquire: in the recorded steps, holder started Release(res); after that start, a txn of a
+// later Acquire by the same holder wrote the key again (create-if-absent or the value-compare reacquire);
+// after that, the delete issued by holder's Release removed it.
 func (w *c18World) ownDeleteAfterReacquire(res int, holder *c18Node) bool {
-	lastPut, lastDel := -1, -1
-	var delBy string
+	relStart, reacq, del := -1, -1, -1
 	for i, s := range w.steps {
+		if s.Node != holder.name() {
+			continue
+		}
+		if s.Kind == "start" && s.Desc == fmt.Sprintf("release(r%d)", res) && reacq < 0 {
+			relStart = i
+		}
 		for _, e := range s.Events {
-			if strings.HasPrefix(e, fmt.Sprintf("PUT r%d=%s ", res, holder.id)) {
-				lastPut = i
+			if relStart >= 0 && strings.HasSuffix(s.Kind, "etcd:txn") && strings.Contains(s.Desc, fmt.Sprintf("put(r%d=%s)", res, holder.id)) &&
+				strings.HasPrefix(e, fmt.Sprintf("PUT r%d=%s ", res, holder.id)) {
+				reacq, del = i, -1
 			}
-			if strings.HasPrefix(e, fmt.Sprintf("DELETE r%d ", res)) {
-				lastDel = i
-				delBy = s.Kind + "|" + s.Node
+			if reacq >= 0 && (strings.HasSuffix(s.Kind, "etcd:delete") || strings.HasSuffix(s.Kind, "etcd:txn")) && strings.HasPrefix(e, fmt.Sprintf("DELETE r%d ", res)) {
+				del = i
 			}
 		}
 	}
-	return lastPut >= 0 && lastDel > lastPut && (delBy == "etcd:delete|"+holder.name() || delBy == "etcd:txn|"+holder.name())
+	return relStart >= 0 && reacq > relStart && del > reacq
 }
 
 // claimSessionReplacedAtNotice: the holder's claim on res was made under a lease that has expired AND whose loss the
@@ -1593,7 +1599,7 @@ func (w *c18World) claimSessionReplacedAtNotice(res int, holder *c18Node) bool {
 		return false
 	}
 	for _, s := range w.steps {
-		if s.Kind == "notice||etcd:resp" && s.Node == holder.name() && strings.Contains(s.Desc, "keep-alive channel of "+ls.label+" closes") && strings.Contains(s.Desc, "response of grant") {
+		if strings.HasPrefix(s.Kind, "notice||") && s.Node == holder.name() && strings.Contains(s.Desc, "keep-alive channel of "+ls.label+" closes") && strings.Contains(s.Desc, "grant") {
 			return true
 		}
 	}
